@@ -117,7 +117,9 @@ def jobs(pid, tier):
         return [seq('C09'), vrt('C09', [r'q_p1_.*', r'q_p2_c1_.*'], bound=3, workers=8),
                 vrt('C09', [r'q_p2_c2_.*'], bound=2, workers=16)]
     if pid == 'C12':
-        return [seq('C12')]
+        if q:
+            return [seq('C12'), vrt('C12', [r'sch_.*'], bound=2, workers=4)]
+        return [seq('C12'), vrt('C12', [r'sch_.*'], bound=3, workers=8)]
     if pid == 'C16':
         if q:
             return [seq('C16'), vrt('C16', [r'pub1_.*'], bound=2, workers=2),
